@@ -58,7 +58,7 @@ def tasks(tier):
         bound = 2
     for M, pc, mu, st, dl, bud in itertools.product([1, 2, 3], pcs, mus, strats, [None, 3], buds):
         cfg = dict(M=M, per_class=pc, max_unknown=mu, strat=st, deadline=dl, budget=bud,
-                   alphabet=ALPHA, durs=[0, 2], overshoot=[0, 2], abort=True, handler="call",
+                   alphabet=ALPHA, durs=[0, 2], overshoot=[0, 3], abort=True, handler="call",
                    strat_menu=[1, 0, 9])
         for e in Q4:
             if M == 3 and tier != "quick":
@@ -79,6 +79,10 @@ def tasks(tier):
         cfg = dict(M=M, alphabet=["ok", "x:T", "r:T"], handler="call", handler_free=True,
                    strat_menu=[0, "nan", -1, 1], strat_free=True, max_unknown=None)
         out.append({"family": "permit-zero-delay", "cfg": cfg, "entry": e, "bound": 0})
+    # two consecutive calls on one policy object: the second is judged like the first
+    for pc, mu, e in itertools.product([{"T": 1}, {"T": 2, "U": 1}], [None, 1], Q4):
+        cfg = dict(M=3, per_class=pc, max_unknown=mu, alphabet=["ok", "x:T", "x:U", "r:T"])
+        out.append({"family": "permit-two-calls", "cfg": cfg, "entry": e, "bound": 0, "ncalls": 2})
     # the abort condition is a flag raised by the environment at some point of the run
     for M, hd, e in itertools.product([2, 3], [None, "call"], Q4):
         cfg = dict(M=M, alphabet=["ok", "x:T", "r:T"], abort=True, abort_mode="flag", handler=hd,
@@ -167,6 +171,10 @@ def monitor(w, cfg):
                           f"attempt {a.i} failed and the sleep handler always answers "
                           f"{cfg['handler_menu'][0]}, yet another attempt was made "
                           f"(handler consulted: {bool(a.handlers)})"))
+            if not a.last and a.sleeps and (a.sleeps[-1][4] - call.t_start) > D:
+                v.append(("c03.attempt-after-deadline",
+                          f"attempt {a.i + 1} was made although the backoff after attempt {a.i} "
+                          f"ended at elapsed {a.sleeps[-1][4] - call.t_start} > deadline {D}"))
             if a.must and grants:
                 key = F1_KEY if a.must == {"MAX_ATTEMPTS_GLOBAL"} else GRANT_KEY
                 v.append((key, f"attempt {a.i} ({op.label}, elapsed {a.elapsed}) must not be "
@@ -219,9 +227,21 @@ def run_plain(cfg, entry, ch):
     return w, monitor(w, full)
 
 
+def run_two(cfg, entry, ch):
+    full = seq.mkcfg(**cfg)
+    w = seq.World(full, ch)
+    w.call(entry)
+    w.call(entry)
+    return w, monitor(w, full)
+
+
 def run_task(task, seed):
+    if task.get("ncalls") == 2:
+        return explore_task(task, seed, run_two)
     return explore_task(task, seed, run_plain)
 
 
 def replay(doc):
+    if doc.get("extra", {}).get("ncalls") == 2:
+        return run_two(doc["cfg"], doc["entry"], Chooser(tuple(doc["choices"])))
     return run_plain(doc["cfg"], doc["entry"], Chooser(tuple(doc["choices"])))
